@@ -33,6 +33,10 @@ RULE = (
     "raised, and on success the output is identified as each format the construction combines. "
     "Non-trivial = marker subset of size 2-4, or a pair for which no polyglot exists; distinct = "
     "distinct files / pairs."
+    ' Also: marker members under dot-folders / dot-file names; the non-zip rows of the documented'
+    ' table asserted on real files; every marker subset rewritten in place with the same length'
+    ' and timestamps; a plain zip identified before and after a model-archive-like zip with the'
+    ' same markers.'
 )
 ASSUMPTIONS = [
     "cells where the README ('ZIP file with model.json') and the implementation's own corruption "
